@@ -32,7 +32,9 @@ CLAIMS = {
              "steps ends in exactly the same system as the explicit legal history obtained by deleting rejected calls and cutting batches "
              "to their accepted prefix - under the one hypothesis that purges are Raft-legal (the store applies any purge; "
              "last example of the file) - so the per-history theorems (state = reference, reads never panic, clean restart, crash "
-             "prefix; Props/AnyHistory: the C03/C04/C05/C07/C08/C14 system theorems) hold for all such histories (…_any_history_partial). Correspondence + reference-log oracle on rejected calls at every "
+             "prefix; Props/AnyHistory: the C03/C04/C05/C07/C08/C14 system theorems) hold for all such histories (…_any_history_partial); and the reachability predicate ReachLIFT (histories, clean restarts, crash "
+             "recoveries) is closed under such histories (Props/ReachAny: reachLIFT_any_history), so every …_reach theorem covers systems "
+             "reached through rejected calls too. Correspondence + reference-log oracle on rejected calls at every "
              "point of generated histories, cache statistics and residents bracketed, metamorphic twin without the rejected calls, then "
              "flush/restart.",
              technique="Lean 4 theorems (rejected call = identity on the whole system; normalisation of arbitrary histories to legal ones) + correspondence/oracle against the reference log",
